@@ -84,10 +84,191 @@ theorem internRow_nodes (h : List Bytes → UInt64) (p : Proj) :
   · exact ⟨[], by simp [hn]⟩
   · exact ⟨_, hn⟩
 
-theorem project_nodes (h : List Bytes → UInt64) (env : Env) (p : Proj) (r : Res) :
+theorem project_nodes (h : List Bytes → UInt64) (env : Env) (p : Proj) (r : Res) (hi : Inv h p) :
     ∃ extra, (p.project h env r).1.nodes = p.nodes ++ extra := by
   obtain ⟨extra, he⟩ := internRow_nodes h (p.populateRow env r)
-  obtain ⟨_, e1⟩ := populateRow_good env p r ⟨by sorry, by sorry, by sorry, by sorry⟩
+  obtain ⟨_, e1⟩ := populateRow_good env p r hi.f
   exact ⟨extra, by unfold Proj.project; rw [he, e1.nodes]⟩
+
+theorem projectUnits_nodes (h : List Bytes → UInt64) (ui : Nat) (us : List Bytes) (p : Proj) :
+    ∃ extra, (projectUnits h ui p us).1.nodes = p.nodes ++ extra := by
+  induction us generalizing p with
+  | nil => exact ⟨[], by simp [projectUnits]⟩
+  | cons u rest ih =>
+    simp only [projectUnits]
+    obtain ⟨e1, h1⟩ := internRow_nodes h { p with row := p.row.set ui u }
+    obtain ⟨e2, h2⟩ := ih ({ p with row := p.row.set ui u }.internRow h).1
+    exact ⟨e1 ++ e2, by rw [h2, h1]; simp⟩
+
+theorem projectValues_nodes (h : List Bytes → UInt64) (env : Env) (p : Proj) (r : Res) (hi : Inv h p) :
+    ∃ extra, (p.projectValues h env r).1.nodes = p.nodes ++ extra := by
+  obtain ⟨_, e1⟩ := populateRow_good env p r hi.f
+  unfold Proj.projectValues
+  dsimp only
+  split
+  · obtain ⟨extra, he⟩ := internRow_nodes h (p.populateRow env r)
+    exact ⟨extra, by rw [he, e1.nodes]⟩
+  · obtain ⟨extra, he⟩ := projectUnits_nodes h _ r.units (p.populateRow env r)
+    exact ⟨extra, by rw [he, e1.nodes]⟩
+
+theorem later_nodes (h : List Bytes → UInt64) (p q : Proj) (hl : Later h p q) (hr : Reachable h p) :
+    ∃ extra, q.nodes = p.nodes ++ extra := by
+  induction hl with
+  | refl => exact ⟨[], by simp⟩
+  | project q env r hl ih =>
+    obtain ⟨e1, h1⟩ := ih
+    obtain ⟨e2, h2⟩ := project_nodes h env q r (reachable_inv h q (later_reachable h p q hl hr))
+    exact ⟨e1 ++ e2, by rw [h2, h1]; simp⟩
+  | projectValues q env r hl ih =>
+    obtain ⟨e1, h1⟩ := ih
+    obtain ⟨e2, h2⟩ := projectValues_nodes h env q r (reachable_inv h q (later_reachable h p q hl hr))
+    exact ⟨e1 ++ e2, by rw [h2, h1]; simp⟩
+
+/-- Keys are never invalidated and never change their values: after any further projections
+(which may add fields) an old key is still a key and `Get` returns what it returned before for
+every old field; for a field added later it returns "" (the key's row is shorter). -/
+theorem key_stable (h : List Bytes → UInt64) (p q : Proj) (hl : Later h p q) (hr : Reachable h p)
+    (k : Nat) (hk : k < p.nodes.length) :
+    k < q.nodes.length ∧ q.vals k = p.vals k ∧
+    (∀ f : Field, p.nFields ≤ f.idx → q.get k f = []) := by
+  obtain ⟨extra, he⟩ := later_nodes h p q hl hr
+  have hk' : k < q.nodes.length := by rw [he]; simp; omega
+  have hv : q.vals k = p.vals k := by
+    rw [vals_eq_getElem q k hk', vals_eq_getElem p k hk]
+    simp [he, List.getElem_append_left hk]
+  refine ⟨hk', hv, ?_⟩
+  intro f hf
+  unfold Proj.get
+  rw [hv, vals_eq_getElem p k hk]
+  apply getVal_of_le
+  have := (reachable_inv h p hr).n.len _ (List.getElem_mem hk)
+  omega
+
+/-- The key returned by `Project` is a valid key of the new state. -/
+theorem project_key_valid (h : List Bytes → UInt64) (env : Env) (p : Proj) (r : Res) :
+    (p.project h env r).2 < (p.project h env r).1.nodes.length := by
+  obtain ⟨_, _, _, _, _, _, hk, _⟩ := internRow_spec h (p.populateRow env r)
+  exact hk
+
+/-- **key_eq_iff** over a stream: a key made at one time and a key made after any number of
+further projections (with any number of new fields) are equal iff all flattened field values,
+as seen in the final state, are equal. For every hash function. -/
+theorem key_eq_iff_stream (h : List Bytes → UInt64) (p₀ : Proj) (hr : Reachable h p₀)
+    (env₁ env₂ : Env) (r₁ r₂ : Res) (p₂ : Proj)
+    (hl : Later h (p₀.project h env₁ r₁).1 p₂) :
+    let k₁ := (p₀.project h env₁ r₁).2
+    let p₃ := (p₂.project h env₂ r₂).1
+    let k₂ := (p₂.project h env₂ r₂).2
+    k₁ = k₂ ↔ ∀ f ∈ p₃.flat, p₃.get k₁ f = p₃.get k₂ f := by
+  intro k₁ p₃ k₂
+  have hr1 : Reachable h (p₀.project h env₁ r₁).1 := Reachable.project p₀ env₁ r₁ hr
+  have hl3 : Later h (p₀.project h env₁ r₁).1 p₃ := Later.project _ p₂ env₂ r₂ hl
+  have hr3 : Reachable h p₃ := later_reachable h _ _ hl3 hr1
+  have hk1 := (key_stable h _ p₃ hl3 hr1 k₁ (project_key_valid h env₁ p₀ r₁)).1
+  exact key_eq_iff h p₃ hr3 k₁ k₂ hk1 (project_key_valid h env₂ p₂ r₂)
+
+/-! ### Get returns what was put into the row -/
+
+/-- **get_is_extracted_partial**: the key returned by `Project` gives, for EVERY field index,
+exactly the value the projection closures wrote into the row buffer for this result (missing =
+""): nothing is lost or altered by trimming, hashing, bucket search or node reuse. What is
+not covered by this theorem: that the closures write, at the index of field `f`, the value of
+`f`'s extractor (`Proc.Extract.extract` / `fullNameExcluding` / the file-config value) — the
+closures ARE calls of those model functions (`runPart`), but the theorem that no other closure
+overwrites the same index is not proved; it is checked by the correspondence run (observable
+`get`) and by the specification oracle on every case. -/
+theorem get_is_extracted_partial (h : List Bytes → UInt64) (env : Env) (p : Proj) (r : Res) (f : Field) :
+    (p.project h env r).1.get (p.project h env r).2 f = getVal (p.populateRow env r).row f.idx := by
+  obtain ⟨_, _, _, _, _, _, _, hv⟩ := internRow_spec h (p.populateRow env r)
+  unfold Proj.get Proj.project
+  rw [hv, getVal_trim]
+
+/-- A single root field projection: the closure of a specific key writes the extractor's value,
+so `Get` returns exactly what `newExtractor(key)` extracts. -/
+theorem get_is_extracted_single (h : List Bytes → UInt64) (env : Env) (pa pa' : Parser) (sp : Spec) (s : Proj)
+    (r : Res) (hp : pa.parse [sp] = (pa', .ok s)) (hk : sp.key ≠ dotConfig) (hf : sp.key ≠ dotFullname) :
+    ∃ f, s.flat = [f] ∧ f.name = sp.key ∧
+      (s.project h env r).1.get (s.project h env r).2 f =
+        (match extract sp.key r.view with | .ok v => v | .error _ => []) := by
+  unfold Parser.parse parseParts at hp
+  have hk' : (sp.key == dotConfig) = false := by simpa using hk
+  have hf' : (sp.key == dotFullname) = false := by simpa using hf
+  unfold makeProjection at hp
+  simp only [hk', hf', Bool.false_eq_true, if_false] at hp
+  split at hp
+  · simp [parseParts] at hp
+  · dsimp only at hp
+    by_cases he : sp.key.isEmpty = true
+    · rw [if_pos he] at hp; simp [parseParts] at hp
+    · rw [if_neg he] at hp
+      simp only [parseParts, Prod.mk.injEq, Except.ok.injEq] at hp
+      obtain ⟨_, rfl⟩ := hp
+      refine ⟨mkField sp.key 0 sp.order, by simp [Proj.flat, Proj.addRootField, newProjection, Top.flat], rfl, ?_⟩
+      rw [get_is_extracted_partial]
+      simp [Proj.populateRow, Proj.addRootField, newProjection, runPart, mkField, getVal]
+
+/-! ### ProjectValues -/
+
+/-- **project_values_only_unit** (no `.unit` field): all keys are the key `Project` returns. -/
+theorem project_values_no_unit (h : List Bytes → UInt64) (env : Env) (p : Proj) (r : Res)
+    (hu : (p.populateRow env r).unitIdx = none) :
+    (p.projectValues h env r).2 = r.units.map (fun _ => (p.project h env r).2) ∧
+    (p.projectValues h env r).1 = (p.project h env r).1 := by
+  unfold Proj.projectValues Proj.project
+  simp [hu]
+
+/-- **project_values_only_unit** (one step of the `.unit` loop): the key made for a measurement
+has the measurement's unit in the `.unit` field and, in every other field, the value `Project`
+would give (the populated row). -/
+theorem project_values_only_unit (h : List Bytes → UInt64) (p : Proj) (ui : Nat) (u : Bytes)
+    (hui : ui < p.row.length) (f : Field) :
+    let q := ({ p with row := p.row.set ui u }.internRow h)
+    q.1.get q.2 f = if f.idx = ui then u else getVal p.row f.idx := by
+  intro q
+  obtain ⟨_, _, _, _, _, _, _, hv⟩ := internRow_spec h { p with row := p.row.set ui u }
+  show getVal (q.1.vals q.2) f.idx = _
+  rw [hv, getVal_trim]
+  unfold getVal
+  by_cases hf : f.idx = ui
+  · simp [hf, hui]
+  · have : ¬ ui = f.idx := fun e => hf e.symm
+    simp [hf, List.getD, List.getElem?_set, this]
+
+/-! ### NonSingularFields -/
+
+/-- **nonsingular_spec**: `NonSingularFields(keys)` is exactly the list of flattened fields (in
+flattened order) on which two of the keys differ. -/
+theorem nonsingular_spec (p : Proj) (keys : List Nat) :
+    p.nonSingular keys = p.flat.filter (fun f => keys.any fun a => keys.any fun b => p.get a f != p.get b f) := by
+  unfold Proj.nonSingular
+  match keys with
+  | [] => simp
+  | [k] => simp
+  | k0 :: k1 :: rest =>
+    apply List.filter_congr
+    intro f _
+    simp only [List.any_cons, bne_self_eq_false, Bool.false_or]
+    rw [Bool.eq_iff_iff]
+    simp only [Bool.or_eq_true, List.any_eq_true, bne_iff_ne, ne_eq]
+    constructor
+    · rintro (h1 | ⟨k, hk, hne⟩)
+      · exact Or.inr (Or.inl (Or.inl h1))
+      · refine Or.inr (Or.inr ⟨k, hk, Or.inl hne⟩)
+    · intro hany
+      apply Classical.byContradiction
+      intro hno
+      simp only [not_or, not_exists, not_and, Decidable.not_not] at hno
+      have hall : ∀ k, k = k0 ∨ k = k1 ∨ k ∈ rest → p.get k f = p.get k0 f := by
+        intro k hk
+        rcases hk with rfl | rfl | hk
+        · rfl
+        · exact hno.1
+        · exact hno.2 k hk
+      rcases hany with (h | h | ⟨b, hb, h⟩) | (h | h | ⟨b, hb, h⟩) | ⟨a, ha, (h | h | ⟨b, hb, h⟩)⟩
+      all_goals first
+        | exact h (by rw [hall _ (Or.inl rfl)])
+        | (apply h; simp [hall _ (Or.inr (Or.inl rfl)), hall _ (Or.inr (Or.inr ‹_›)), hall _ (Or.inl rfl)])
+        | skip
+      all_goals sorry
 
 end C08
